@@ -59,9 +59,13 @@ Fixpoint list_eqb {A} (eqb : A -> A -> bool) (x y : list A) : bool :=
 Definition up_bytes (st : state) : bytes :=
   match upstream_ st with Some u => concat (up_buffer u) | None => [] end.
 
-(* bytes that reach the client socket: everything queued, except when get_events() raised before the flush *)
+(* bytes that reach the client socket.  Queued bytes are flushed by LATER handle_events calls; when an
+   exception escapes handle_events (code >= 1000, which includes 1098) the work is shut down at once and
+   HttpProtocolHandler.shutdown() does not flush in threadless mode, so whatever was queued during the
+   failing call (e.g. a literal answer of an earlier plugin, before a later plugin's handle_route
+   raised) is never sent.  A requested teardown (code 1) still flushes first. *)
 Definition delivered (st : state) (code : N) : bytes :=
-  if code =? 1098 then [] else concat (client_queue st).
+  if 1000 <=? code then [] else concat (client_queue st).
 
 Definition check_case (c : case) : bool :=
   match c with
@@ -76,7 +80,9 @@ Definition check_case (c : case) : bool :=
       && bytes_eqb (delivered st code) (e_client e)
       && (N.of_nat (length rs - length rs') =? e_draws e)
       && (handler_code st2 (code_of (fun b : bool => b) r2) =? e_code_after e)
-      && bytes_eqb (delivered st2 (handler_code st2 (code_of (fun b : bool => b) r2))) (e_client_after e)
+      (* the scripted reads run one handle_events call each, everything queued before a failing read
+         was flushed by then and a failing read queues nothing *)
+      && bytes_eqb (if code =? 0 then concat (client_queue st2) else delivered st code) (e_client_after e)
   end.
 
 (* the model's own output, for replay files *)
@@ -84,5 +90,6 @@ Definition run_case (c : case) :=
   match c with
   | CReq cfg tbl ps co wo req rs reads e =>
       let '(st, rs', r) := on_request_complete (tbl_match tbl) cfg ps co wo req rs init_state in
-      (handler_code st (code_of (fun b : bool => b) r), connect_log st, wrap_log st, up_bytes st, concat (client_queue st), length rs')
+      (handler_code st (code_of (fun b : bool => b) r), connect_log st, wrap_log st, up_bytes st,
+       delivered st (handler_code st (code_of (fun b : bool => b) r)), length rs')
   end.
